@@ -3,17 +3,20 @@
 (* Emits a family of CGFamilies as ndjson (one indexed circuit per line)   *)
 (* for the harness to drive the real code with (specification -> code).    *)
 (***************************************************************************)
-EXTENDS CGFamilies, Json, IOUtils
+EXTENDS CGFamilies, Json, IOUtils, SequencesExt
 
-RECURSIVE SetSeq(_)
-SetSeq(S) == IF S = {} THEN <<>> ELSE LET x == CHOOSE y \in S : TRUE IN <<x>> \o SetSeq(S \ {x})
-Emit(file, S) == ndJsonSerialize(file, SetSeq(S))
+Emit(file, S) == ndJsonSerialize(file, SetToSeq(S))
 
 Family == IOEnv.GEN_FAMILY
 ASSUME /\ PrintT(<<"family", Family>>)
        /\ CASE Family = "G1" -> Emit(IOEnv.GEN_OUT, G1) /\ PrintT(<<"count", Cardinality(G1)>>)
             [] Family = "G2" -> Emit(IOEnv.GEN_OUT, G2ok) /\ PrintT(<<"count", Cardinality(G2ok)>>)
             [] Family = "W"  -> Emit(IOEnv.GEN_OUT, W) /\ PrintT(<<"count", Cardinality(W)>>)
+            [] Family = "DAG4" -> Emit(IOEnv.GEN_OUT, DAG4)
+            [] Family = "DAG5" -> Emit(IOEnv.GEN_OUT, DAG5)
+            [] Family = "DAG6" -> Emit(IOEnv.GEN_OUT, DAG6)
+            [] Family = "DG3"  -> Emit(IOEnv.GEN_OUT, DG3)
+            [] Family = "DG4"  -> Emit(IOEnv.GEN_OUT, DG4)
 VARIABLE done
 Init == done = TRUE
 Next == UNCHANGED done
